@@ -57,8 +57,8 @@ def chunk_table(f, ch):
                     if q is o:
                         break
                     qn = ov.get(q.path, 0) if last else q.number_values
-                    pre += q.data_size if qn == q.number_values else q.data_type.size * qn
-                size = o.data_size if o.data_type.size is None else o.data_type.size * n
+                    pre += q.data_size if qn == q.number_values else (q.data_type.size or 0) * qn
+                size = (o.data_size if n == o.number_values else 0) if o.data_type.size is None else o.data_type.size * n
                 rng = [(start + pre, start + pre + size)]
             out.append((idx, idx + n, si, rng))
             idx += n
@@ -159,6 +159,21 @@ def run(ctx):
         d, v = check_file(ctx, model, nptdms, data, stats, ctx.tier == "thorough" or i % 3 == 0)
         disagreements += d
         violations += v
+        # the same file cut inside its last segment's raw data (truncated final chunk): all windows, exhaustive
+        if i % 2 == 0 and len(data) > 40:
+            try:
+                last = nptdms.TdmsFile.open(cl.RecordingStream(data))._reader._segments[-1]
+                lo, hi = last.data_position + 1, last.next_segment_pos - 1
+            except Exception:
+                lo, hi = 1, 0
+            if lo <= hi:
+                for k in sorted(set(ctx.rnd.randint(lo, hi) for _ in range(3))):
+                    stats["truncated_files"] = stats.get("truncated_files", 0) + 1
+                    d, v = check_file(ctx, model, nptdms, data[:k], stats, True)
+                    for x in v:
+                        x.what = "file cut at byte %d: %s" % (k, x.what)
+                    disagreements += d
+                    violations += v
         if len(samples) < 2 and len(data) < 300:
             samples.append(dict(encoding=gen_files.to_line(segs)))
         if len(violations) >= 5 or len(disagreements) >= 20:
@@ -169,7 +184,7 @@ def run(ctx):
     return dict(violations=violations, disagreements=disagreements,
                 coverage=dict(evaluations=stats["windows"] + stats["indices"] + stats["cached"], distinct_nontrivial=stats["nonempty"],
                               rule=RULE_FILES + "; per channel windows (off,len) (exhaustive for small channels on every third file), index reads on fresh files "
-                                   "followed by a second index into the same chunk; non-trivial = requests that fetched raw data and had a non-empty allowed set",
+                                   "followed by a second index into the same chunk; every second file additionally cut at up to 3 offsets inside its last segment's raw data with all windows; non-trivial = requests that fetched raw data and had a non-empty allowed set",
                               samples=samples, files=fs.drawn, requests=stats, feature_counts=dict(sorted(fs.feats.items()))))
 
 
